@@ -14,7 +14,7 @@ for d in sorted(glob.glob(V + "/seeded/*/")):
     sid = os.path.basename(d.rstrip("/")); prop = sid.split("_")[0]
     if only and sid not in only and prop not in only:
         continue
-    meta = json.load(open(d + "meta.json"))
+    meta = json.load(open(d + "meta.json")) if os.path.exists(d + "meta.json") else {}
     props = [prop] + [p for p in meta.get("also_check", []) if p != prop]
     if subprocess.run(["git", "-C", REPO, "apply", d + "patch.diff"]).returncode != 0:
         res[sid] = "patch does not apply to this repository state"
